@@ -129,16 +129,14 @@ fn c09_initlive_net_raw() {
 /// dropped, i.e. the device reset, before the queue fields).  Checked here on the real code: the constructor returns
 /// Err(InvalidParam) although DRIVER_OK was written, no buffer was made available (no Share event), and the oracle
 /// inside `dma_dealloc` (no region of an enabled queue freed while DRIVER_OK is set) holds; nothing leaks.
-/// Bounds: QUEUE_SIZE = 4, buffer length 0 or 1520 bytes, no allocation failure, well-behaved transport.
-#[kani::proof]
-#[kani::unwind(50)]
-fn c09_initlive_net_buf_short() {
+/// Bounds: QUEUE_SIZE = 4, concrete buffer length (0 here, 1520 in the next harness; a symbolic Vec length is beyond
+/// CBMC here), no allocation failure, well-behaved transport, both layouts.
+fn net_buf_short(buf_len: usize) {
     log_reset();
     let mut tr = KTransport::new(DeviceType::Network);
     tr.device_features = F_V1_EV_IND;
     tr.legacy = kani::any();
     tr.unset_noop = kani::any();
-    let buf_len: usize = if kani::any() { 0 } else { 1520 };
     let r = crate::device::net::VirtIONet::<KHal, KTransport, 4>::new(tr, buf_len);
     assert!(matches!(r, Err(crate::Error::InvalidParam)), "C09: a receive buffer shorter than MIN_BUFFER_LEN must be refused");
     assert!(driver_ok_writes() == 1, "C09 (scenario): the buffered constructor fails after DRIVER_OK");
@@ -152,4 +150,17 @@ fn c09_initlive_net_buf_short() {
     }
     assert!(shares == 0, "C09: a receive buffer was posted before the constructor failed (it is freed while the device is live)");
     assert!(ledger_empty(), "C09: a DMA region was leaked");
+}
+
+#[kani::proof]
+#[kani::unwind(50)]
+fn c09_initlive_net_buf_short() {
+    net_buf_short(0);
+}
+
+/// the same with a 1520-byte buffer (the largest 8-byte multiple below MIN_BUFFER_LEN)
+#[kani::proof]
+#[kani::unwind(50)]
+fn c09_initlive_net_buf_1520() {
+    net_buf_short(1520);
 }
